@@ -141,7 +141,8 @@ func (self *BinaryConv) unmarshalSingular(ctx context.Context, resp http.Respons
 		if e != nil {
 			return wrapError(meta.ErrRead, "unmarshal Fixed32kind error", e)
 		}
-		*out = json.EncodeInt64(*out, int64(v))
+		// ReadFixed32 hands the unsigned value over as int32
+		*out = json.EncodeInt64(*out, int64(uint32(v)))
 	case proto.SFIX32:
 		v, e := p.ReadSfixed32()
 		if e != nil {
@@ -171,13 +172,14 @@ func (self *BinaryConv) unmarshalSingular(ctx context.Context, resp http.Respons
 		if e != nil {
 			return wrapError(meta.ErrRead, "unmarshal Uint64kind error", e)
 		}
-		*out = json.EncodeInt64(*out, int64(v))
+		*out = json.EncodeUint64(*out, v)
 	case proto.FIX64:
 		v, e := p.ReadFixed64()
 		if e != nil {
 			return wrapError(meta.ErrRead, "unmarshal Fixed64kind error", e)
 		}
-		*out = json.EncodeInt64(*out, int64(v))
+		// ReadFixed64 hands the unsigned value over as int64
+		*out = json.EncodeUint64(*out, uint64(v))
 	case proto.SFIX64:
 		v, e := p.ReadSfixed64()
 		if e != nil {
